@@ -1514,7 +1514,8 @@ class Interp(object):
     def builtin_zip(self, args, kwargs, e, env):
         if kwargs or any(a is TOP or isinstance(a, Obj) for a in args):
             return TOP
-        r = list(zip(*[self.iterate(a) for a in args]))
+        # generator arguments are advanced element by element (zip stops at the shortest argument: an endless generator is fine)
+        r = list(zip(*[(self.lazily(a) if isinstance(a, LazyGen) else self.iterate(a)) for a in args]))
         return OneShot(r) if self.version >= (3,) else r
 
     def builtin_next(self, args, kwargs, e, env):
